@@ -73,6 +73,7 @@ class Force(object):
             node.removeStub()
 
         layers = self.distributor.distribute(self._nodes)
+        self.layers = layers
         for layerIndex, nodes in enumerate(layers):
             for node in nodes:
                 node.layerIndex = layerIndex
